@@ -95,6 +95,17 @@ theorem c04_history_raw (cfg : Cfg) (mode : CbMode) (le : String → String → 
   obtain ⟨o, ho, rfl⟩ := List.mem_map.mp he
   exact Parse.RawOp.ev_wf cfg o (h o ho)
 
+/-- **c04_history_raw_target** — the same for a listener whose search side has the unicast filter host `tgt` (`""` =
+    multicast): a dropped response yields no notification, a response from the target host is notified as in multicast mode. -/
+theorem c04_history_raw_target (cfg : Cfg) (tgt : String) (mode : CbMode) (le : String → String → Bool)
+    (ops : List Parse.RawOp) (h : ∀ o ∈ ops, o.decoded cfg) :
+    ok Parse.ipVersion (Parse.skipHdr cfg) "_source" mode
+      (traceOf Parse.ipVersion (Parse.skipHdr cfg) "_source" mode le {} (ops.map (Parse.RawOp.evT cfg tgt))) = true := by
+  apply c04_history
+  intro e he
+  obtain ⟨o, ho, rfl⟩ := List.mem_map.mp he
+  exact Parse.RawOp.evT_wf cfg tgt o (h o ho)
+
 /-- **same_headers_differ_spec** — the early-exit loop over the two case maps answers `True` exactly when some
     header of the stored map, not private (`_…`) and not volatile, is present in the new map with a different value. -/
 theorem same_headers_differ_spec (cur new : Hdrs σ) :
